@@ -31,6 +31,42 @@ def frac(x):
     return f.numerator, f.denominator
 
 
+def key_atoms(k) -> str:
+    """a sort key (nested tuples of ints, strs and objects that Python compares with their own `<`) flattened to the
+    `KeyAtom` list of Model/Syntax.lean: int -> (N v), str -> (S v), any other object -> (S repr).  Flattening keeps the
+    order of two keys of one layout; objects are represented by their repr (equal objects, equal reprs)"""
+    out = []
+    def go(x):
+        if isinstance(x, (tuple, list)):
+            for y in x:
+                go(y)
+        elif isinstance(x, bool) or not isinstance(x, (int, str)):
+            out.append("(S %s)" % enc(repr(x)))
+        elif isinstance(x, int):
+            out.append("(N %d)" % x)
+        else:
+            out.append("(S %s)" % enc(x))
+    go(k)
+    return " ".join(out)
+
+
+def domain_key(o):
+    """` (K ...)` suffix of a terminal: the `_ufl_sort_key_()` of the domain of a Constant / geometric quantity (what the
+    numeric comparators of ufl/sorting.py compare), empty for every other terminal"""
+    from ufl.classes import Constant, GeometricQuantity
+    try:
+        if isinstance(o, Constant):
+            d = o.ufl_domain()
+        elif isinstance(o, GeometricQuantity):
+            d = o._domain
+        else:
+            return ""
+        atoms = key_atoms(d._ufl_sort_key_())
+    except Exception:
+        return ""
+    return " (K %s)" % atoms if atoms else ""
+
+
 def ser(o, memo=None) -> str:
     """serialise; memo shares work across the DAG"""
     if memo is None:
@@ -69,7 +105,7 @@ def _ser(o, memo):
             except Exception:
                 count = 0
         shape = () if isinstance(o, Label) else o.ufl_shape
-        return "(T %s %s %s %d %d)" % (name, enc(repr(o)), nats(shape), count, part)
+        return "(T %s %s %s %d %d%s)" % (name, enc(repr(o)), nats(shape), count, part, domain_key(o))
     if name in GRADLIKE:
         aux = nats(o.ufl_shape[-1:])
     elif name in SHAPE_AUX or name not in KNOWN_OPS:
